@@ -117,7 +117,7 @@ def c14(prop, tier, replay):
 
 def c15(prop, tier, replay):
     n = 6 if tier == "quick" else 8
-    cfgs = [("cmt", 5 if tier == "quick" else 7), ("cmt0", 5 if tier == "quick" else 7), ("xml", n), ("pas", n), ("dash", n)]
+    cfgs = [("cmt", 5 if tier == "quick" else 7), ("cmt0", 5 if tier == "quick" else 7), ("xml", n), ("pas", n), ("dash", n), ("lc2", 5 if tier == "quick" else 7), ("bc2", 5 if tier == "quick" else 7)]
     return scan_check(prop, tier, replay, cfgs, "tok",
                       BASE + "; C15: block comments /* */, <!-- -->, (* *), --- -- (self-overlapping end delimiters) and line comments // and --; "
                       "the expected comment token ends at the FIRST occurrence of the end delimiter behind the start delimiter (string search, "
@@ -127,7 +127,7 @@ def c15(prop, tier, replay):
 
 def c16(prop, tier, replay):
     n = 4 if tier == "quick" else 6
-    cfgs = [("nonl", n), ("nows", n), ("allow", n), ("allow2", n), ("basic", n)]
+    cfgs = [("nonl", n), ("nows", n), ("allow", n), ("allow2", n), ("basic", n), ("allowst", n + 1), ("allowst2", n + 1)]
     return scan_check(prop, tier, replay, cfgs, "tok",
                       BASE + "; C16: states with and without %allow_unmatched, with automatic newline/whitespace handling switched off: without "
                       "allow-unmatched every character no rule matches must come out as the (non-skippable) error token - also a line break "
